@@ -131,8 +131,9 @@ func (cs *gcpClientStream) RecvMsg(m interface{}) error {
 		cs.cond.Wait()
 	}
 	if cs.initStreamErr != nil {
+		err := cs.initStreamErr
 		cs.Unlock()
-		return cs.initStreamErr
+		return err
 	}
 	cs.Unlock()
 	return cs.ClientStream.RecvMsg(m)
